@@ -162,10 +162,64 @@ static void compute_levels(
     }
 }
 
+/* Maximum group nesting accepted in a file schema */
+#define CARQUET_MAX_SCHEMA_DEPTH 128
+
+/**
+ * Check that the flat element list really is a depth-first tree: every
+ * element is either a leaf (has a type, no children) or a group (no type, at
+ * least one child), child counts are consistent with the number of elements,
+ * and the root's subtree consumes the whole list. Everything derived later
+ * (leaf order, levels, the accessors callers size their buffers with) relies
+ * on this.
+ */
+static bool validate_schema_subtree(
+    const parquet_schema_element_t* elements,
+    int32_t num_elements,
+    int32_t* idx,
+    int depth) {
+
+    if (*idx >= num_elements || depth > CARQUET_MAX_SCHEMA_DEPTH) {
+        return false;
+    }
+
+    const parquet_schema_element_t* elem = &elements[(*idx)++];
+    if (!elem->name) {
+        return false;
+    }
+
+    if (elem->num_children == 0) {
+        /* Leaf; only the root may be a childless group (empty schema) */
+        return elem->has_type || depth == 0;
+    }
+
+    if (elem->has_type || elem->num_children < 0 ||
+        elem->num_children > num_elements - *idx) {
+        return false;
+    }
+
+    for (int32_t child = 0; child < elem->num_children; child++) {
+        if (!validate_schema_subtree(elements, num_elements, idx, depth + 1)) {
+            return false;
+        }
+    }
+    return true;
+}
+
 carquet_schema_t* build_schema(
     carquet_arena_t* arena,
     const parquet_file_metadata_t* metadata,
     carquet_error_t* error) {
+
+    int32_t consumed = 0;
+    if (metadata->num_schema_elements < 1 || !metadata->schema ||
+        !validate_schema_subtree(metadata->schema, metadata->num_schema_elements,
+                                 &consumed, 0) ||
+        consumed != metadata->num_schema_elements) {
+        CARQUET_SET_ERROR(error, CARQUET_ERROR_INVALID_SCHEMA,
+            "Schema element list is not a well-formed tree");
+        return NULL;
+    }
 
     carquet_schema_t* schema = carquet_arena_calloc(arena, 1, sizeof(carquet_schema_t));
     if (!schema) {
